@@ -7,6 +7,14 @@ as_bytes(from_bytes(x)[i]) concatenated == x, every document's own segment, toke
 attribute values / constant tables as generated; documents assembled through get_token parse back to the
 same ids and values; every input terminates (per-case alarm) and a successful parse consumed exactly the
 announced lengths.  Correspondence: from_bytes + as_bytes and get_token + as_bytes against the Lean model.
+
+Hardening (round 2): values the format lets a sender spell out although the library knows them as a default
+(inline constant table = the built default table and its near misses, inline table = the table that would
+be inherited, attribute given with its preset value / None, tokens that have a shorter synonym, zero
+fractions, zero result codes), sessions in ONE process that alternate request and report documents with
+by-number / by-name lookups and assemblies in between (every token id shared by both tables, by number,
+after a parse of the opposite kind), parsed documents and looked-up tokens held across later calls and
+re-verified, mutation of a returned object followed by a fresh call.
 """
 import json
 import logging
@@ -217,135 +225,389 @@ def fl(neg, i, f):
     return (-1.0 if neg else 1.0) * (i + f / 128)
 
 
-def gen_token(ctx, tok):
+def gen_value(ctx, tok):
+    """a value of the right shape for the token (generator's own representation, see enc_token)"""
+    tid, _name, ty, length, attrs = tok
+    if ty == "OPAQUE_I":
+        if length:
+            return ([], rbytes(ctx, length))
+        if length == 0:
+            return ([], b"")
+        codes = [gen_uint(ctx) for _ in attrs]
+        n = pick(ctx, LEN_EDGE) if ctx.rng.randrange(40) else pick(ctx, (300, 16383, 16384))
+        ctx.count(f"opaque-len:{'0' if n == 0 else '1..127' if n < 128 else '>=128'}")
+        return (codes, rbytes(ctx, n))
+    if ty == "INFO_TIME":
+        return rbytes(ctx, 5)
+    if ty == "UINT8":
+        return pick(ctx, (0, 1, 127, 128, 162, 255)) if ctx.rng.randrange(2) else ctx.rng.randrange(256)
+    if ty == "NO_VALUE":
+        return None
+    if ty == "UINTVAR":
+        n = gen_uint(ctx)
+        ctx.count(f"uintvar-septets:{len(enc_u(n))}")
+        return n
+    if ty == "UFLOATVAR":
+        return gen_ufloat(ctx)
+    if ty == "SFLOATVAR":
+        v = gen_sfloat(ctx)
+        if v[0] and v[1] == 0:
+            ctx.count("negative-fraction-zero-integer")
+        return v
+    if ty == "CIRCLE_2D":
+        return (rbytes(ctx, 4), rbytes(ctx, 4), gen_ufloat(ctx))
+    if ty == "POINT_2D":
+        return (rbytes(ctx, 4), rbytes(ctx, 4))
+    if ty == "POINT_3D":
+        v = gen_sfloat(ctx)
+        if v[0] and v[1] == 0:
+            ctx.count("negative-fraction-zero-integer")
+        return (rbytes(ctx, 4), rbytes(ctx, 4), v)
+    raise AssertionError(ty)
+
+
+def enc_token(tok, v):
     """canonical octets of one token + what the parser must report: (octets, (id, value text, [attr text]))"""
     tid, _name, ty, length, attrs = tok
     head = bytes([tid])
     ats = []
     if ty == "OPAQUE_I":
+        codes, data = v
         if length:
-            v = rbytes(ctx, length)
-            return head + v, (tid, "B" + v.hex(), ats)
+            assert len(data) == length
+            return head + data, (tid, "B" + data.hex(), ats)
         if length == 0:
             return head, (tid, "B", ats)
         body = b""
-        for a in attrs:
-            rc = gen_uint(ctx)
+        for a, rc in zip(attrs, codes):
             body += enc_u(rc)
             ats.append(f"a{ATTR_BY_ID[a][1]}={rc}")
-        n = pick(ctx, LEN_EDGE) if ctx.rng.randrange(40) else pick(ctx, (300, 16383, 16384))
-        v = rbytes(ctx, n)
-        ctx.count(f"opaque-len:{'0' if n == 0 else '1..127' if n < 128 else '>=128'}")
-        return head + body + enc_u(n) + v, (tid, "B" + v.hex(), ats)
+        return head + body + enc_u(len(data)) + data, (tid, "B" + data.hex(), ats)
     if ty == "INFO_TIME":
-        v = rbytes(ctx, 5)
         return head + v, (tid, "B" + v.hex(), ats)
     if ty == "UINT8":
-        n = pick(ctx, (0, 1, 127, 128, 162, 255)) if ctx.rng.randrange(2) else ctx.rng.randrange(256)
-        return head + bytes([n]), (tid, f"I{n}", ats)
+        return head + bytes([v]), (tid, f"I{v}", ats)
     if ty == "NO_VALUE":
         return head, (tid, "N", ats)
     if ty == "UINTVAR":
-        n = gen_uint(ctx)
-        ctx.count(f"uintvar-septets:{len(enc_u(n))}")
-        return head + enc_u(n), (tid, f"I{n}", ats)
+        return head + enc_u(v), (tid, f"I{v}", ats)
     if ty == "UFLOATVAR":
-        i, f = gen_ufloat(ctx)
+        i, f = v
         return head + enc_u(i) + bytes([f]), (tid, "F" + dy_str(fl(False, i, f)), ats)
     if ty == "SFLOATVAR":
-        neg, i, f = gen_sfloat(ctx)
-        if neg and i == 0:
-            ctx.count("negative-fraction-zero-integer")
+        neg, i, f = v
         return head + enc_s(i, neg) + bytes([f]), (tid, "F" + dy_str(fl(neg, i, f)), ats)
     if ty == "CIRCLE_2D":
-        la, lo = rbytes(ctx, 4), rbytes(ctx, 4)
-        i, f = gen_ufloat(ctx)
+        la, lo, (i, f) = v
         return head + la + lo + enc_u(i) + bytes([f]), (tid, f"C{la.hex()}/{lo.hex()}/{dy_str(fl(False, i, f))}", ats)
     if ty == "POINT_2D":
-        la, lo = rbytes(ctx, 4), rbytes(ctx, 4)
+        la, lo = v
         return head + la + lo, (tid, f"P{la.hex()}/{lo.hex()}", ats)
     if ty == "POINT_3D":
-        la, lo = rbytes(ctx, 4), rbytes(ctx, 4)
-        neg, i, f = gen_sfloat(ctx)
-        if neg and i == 0:
-            ctx.count("negative-fraction-zero-integer")
+        la, lo, (neg, i, f) = v
         return head + la + lo + enc_s(i, neg) + bytes([f]), (tid, f"Q{la.hex()}/{lo.hex()}/{dy_str(fl(neg, i, f))}", ats)
     raise AssertionError(ty)
 
 
-def gen_buffer(ctx, ndocs=None, ntok=None):
-    """(octets, [expected document]) with expected = dict(id, cdt, segment, parts)"""
-    ndocs = ndocs or pick(ctx, (1, 1, 2, 3))
+def gen_token(ctx, tok):
+    return enc_token(tok, gen_value(ctx, tok))
+
+
+def cdt_items(t: bytes):
+    """the length-value items of a constant table"""
+    out, i = [], 0
+    while i < len(t):
+        out.append(t[i : i + 1 + t[i]])
+        i += 1 + t[i]
+    return out
+
+
+DEFAULT_ITEMS = cdt_items(DEFAULT_CDT)
+TABLE_IDS = [d for d in LRRP_DOCS if not REF["docs"][str(d)]["ncdt"]]
+NCDT_IDS = [d for d in LRRP_DOCS if REF["docs"][str(d)]["ncdt"]]
+SPECIAL_TABLES = ("default", "default-1oct", "default-1bit", "default-first-oct", "default-last-oct", "default-trunc", "default-ext",
+                  "default-behead", "default-prefix", "default-minus-item", "default-reordered", "default-twice", "default-lower",
+                  "same-as-previous", "previous-1oct", "previous-ext")
+
+
+def special_table(ctx, label, prev_cdt):
+    """an inline constant table the library could mistake for one it already knows: the built default table
+    of the document type, its near misses, tables built like it from other constants, the previous
+    document's table spelled out instead of CDT_LEN(1)"""
+    d = bytearray(DEFAULT_CDT)
+    if label == "default":
+        t = bytes(d)
+    elif label == "default-1oct":
+        d[ctx.rng.randrange(len(d))] ^= ctx.rng.randrange(1, 256)
+        t = bytes(d)
+    elif label == "default-1bit":
+        d[ctx.rng.randrange(len(d))] ^= 1 << ctx.rng.randrange(8)
+        t = bytes(d)
+    elif label == "default-first-oct":
+        d[0] ^= ctx.rng.randrange(1, 256)
+        t = bytes(d)
+    elif label == "default-last-oct":
+        d[-1] ^= ctx.rng.randrange(1, 256)
+        t = bytes(d)
+    elif label == "default-trunc":
+        t = bytes(d[:-1])
+    elif label == "default-ext":
+        t = bytes(d) + rbytes(ctx, 1)
+    elif label == "default-behead":
+        t = bytes(d[1:])
+    elif label == "default-prefix":  # the table another document type with fewer constants would have
+        t = b"".join(DEFAULT_ITEMS[: ctx.rng.randrange(1, len(DEFAULT_ITEMS))])
+    elif label == "default-minus-item":
+        k = ctx.rng.randrange(len(DEFAULT_ITEMS))
+        t = b"".join(DEFAULT_ITEMS[:k] + DEFAULT_ITEMS[k + 1 :])
+    elif label == "default-reordered":
+        it = list(DEFAULT_ITEMS)
+        i, j = ctx.rng.randrange(len(it)), ctx.rng.randrange(len(it) - 1)
+        j += j >= i
+        it[i], it[j] = it[j], it[i]
+        t = b"".join(it)
+    elif label == "default-twice":
+        t = bytes(d) * 2
+    elif label == "default-lower":
+        t = bytes(d).lower()
+    elif label == "same-as-previous":
+        t = prev_cdt if prev_cdt is not None else b""
+    elif label == "previous-1oct":
+        t = bytearray(prev_cdt if prev_cdt else b"\x00\x00")
+        t[ctx.rng.randrange(len(t))] ^= ctx.rng.randrange(1, 256)
+        t = bytes(t)
+    elif label == "previous-ext":
+        t = (prev_cdt if prev_cdt is not None else b"") + rbytes(ctx, 1)
+    else:
+        raise AssertionError(label)
+    if len(t) == 1:  # CDT_LEN(1) is the inheritance marker, not a table of one octet
+        t = t + b"\x00"
+    return t
+
+
+def gen_doc(ctx, did, prev_cdt, cdt_mode=None, ntok=None, toks=None):
+    """one canonical document: (segment octets, expected)
+    cdt_mode: None = random | 'inherited' | 'inline' (random octets) | a SPECIAL_TABLES label | bytes (that very table inline)"""
+    d = REF["docs"][str(did)]
+    if toks is None:
+        toks = [t for t in REF["tables"][d["table"]] if t[2] in IMPLEMENTED]
+    if d["ncdt"]:
+        cdt_oct, cdt, mode = b"", DEFAULT_CDT, "default"
+    else:
+        if cdt_mode is None:
+            r = ctx.rng.randrange(20)
+            cdt_mode = "inherited" if r < 9 else "inline" if r < 15 else pick(ctx, SPECIAL_TABLES)
+        if cdt_mode == "inherited":
+            cdt_oct, mode = b"\x01", "inherited"
+            cdt = prev_cdt if prev_cdt is not None else b""
+        elif cdt_mode == "inline":
+            n = pick(ctx, (0, 2, 3, 5, 5, 9, len(DEFAULT_CDT), 127, 128, 200))
+            cdt = rbytes(ctx, n)
+            cdt_oct, mode = enc_u(n) + cdt, "inline"
+        else:
+            if isinstance(cdt_mode, bytes):
+                cdt, mode = cdt_mode, "inline:given"
+            else:
+                cdt, mode = special_table(ctx, cdt_mode, prev_cdt), "inline:" + cdt_mode
+            cdt_oct = enc_u(len(cdt)) + cdt
+    ctx.count(f"cdt:{mode}")
+    body = cdt_oct
+    parts = []
+    k = ntok if ntok is not None else ctx.rng.randrange(0, 13)
+    for _ in range(k):
+        tok = pick(ctx, toks)
+        o, e = gen_token(ctx, tok)
+        body += o
+        parts.append(e)
+        ctx.count(f"token-type:{tok[2]}")
+    seg = enc_u(did) + enc_u(len(body)) + body
+    return seg, {"id": did, "cdt": cdt, "segment": seg, "parts": parts, "mode": mode}
+
+
+def gen_buffer(ctx, ndocs=None, ntok=None, kinds=None, cdt_modes=None, dids=None):
+    """(octets, [expected document]) with expected = dict(id, cdt, segment, parts)
+    kinds: restrict the document ids to these reference tables ('t0' request, 't1' answer/report, 't2' common only)"""
+    ndocs = ndocs or (pick(ctx, (1, 1, 2, 3)) if ctx.rng.randrange(25) else pick(ctx, (4, 5)))
+    ids = LRRP_DOCS if kinds is None else [d for d in LRRP_DOCS if REF["docs"][str(d)]["table"] in kinds]
     buf = b""
     exp = []
     prev_cdt = None
-    for _ in range(ndocs):
-        did = pick(ctx, LRRP_DOCS)
-        d = REF["docs"][str(did)]
-        toks = [t for t in REF["tables"][d["table"]] if t[2] in IMPLEMENTED]
-        if d["ncdt"]:
-            cdt_oct, cdt, mode = b"", DEFAULT_CDT, "default"
-        elif ctx.rng.randrange(2) == 0:
-            cdt_oct, mode = b"\x01", "inherited"
-            cdt = prev_cdt if prev_cdt is not None else b""
-        else:
-            n = pick(ctx, (0, 2, 3, 5, 5, 9, 127, 128, 200))
-            cdt = rbytes(ctx, n)
-            cdt_oct, mode = enc_u(n) + cdt, "inline"
-        ctx.count(f"cdt:{mode}")
-        body = cdt_oct
-        parts = []
-        k = ntok if ntok is not None else ctx.rng.randrange(0, 13)
-        for _ in range(k):
-            o, e = gen_token(ctx, pick(ctx, toks))
-            body += o
-            parts.append(e)
-            ctx.count(f"token-type:{[t for t in toks if t[0] == e[0]][0][2]}")
-        seg = enc_u(did) + enc_u(len(body)) + body
+    for n in range(ndocs):
+        did = dids[n] if dids else pick(ctx, ids)
+        seg, e = gen_doc(ctx, did, prev_cdt, cdt_mode=cdt_modes[n] if cdt_modes else None, ntok=ntok)
         buf += seg
-        exp.append({"id": did, "cdt": cdt, "segment": seg, "parts": parts, "mode": mode})
-        prev_cdt = cdt
+        exp.append(e)
+        prev_cdt = e["cdt"]
     ctx.count(f"documents-per-buffer:{ndocs}")
     return buf, exp
 
 
-def check_canonical(ctx, mb, x: bytes, exp, origin):
-    """the property on one canonical buffer; returns the correspondence pair"""
+def canonical_problems(mb, x: bytes, exp):
+    """the property on one canonical buffer: (canonical line, documents | None, [(kind, what, expected, actual, document index | None)])"""
     line, ds = parse_str(mb, x)
-    inp = {"op": "parse", "buffer": x.hex(), "origin": origin}
+    pr = []
     if ds is None:
-        ctx.fail("parse-raises" if line != "HANG" else "parse-hangs", inp, f"from_bytes raised {line} on a canonical buffer", expected="documents", actual=line)
-        if line == "HANG":
-            note_hang(ctx)
-        return (f"lrrp.parse {hx(x)}", line)
+        pr.append(("parse-raises" if line != "HANG" else "parse-hangs", f"from_bytes raised {line} on a canonical buffer", "documents", line, None))
+        return line, None, pr
     if exp is not None and len(ds) != len(exp):
-        ctx.fail("document-count", inp, f"{len(ds)} documents parsed, {len(exp)} written", expected=len(exp), actual=len(ds))
-        return (f"lrrp.parse {hx(x)}", line)
-    segs = []
-    for d in ds:
-        b = timed(mb.MBXML.as_bytes, d)
-        segs.append(b)
+        pr.append(("document-count", f"{len(ds)} documents parsed, {len(exp)} written", len(exp), len(ds), None))
+        return line, ds, pr
+    segs = [timed(mb.MBXML.as_bytes, d) for d in ds]
     if any(isinstance(b, str) for b in segs):
-        ctx.fail("serialise-raises", inp, f"as_bytes raised {[b for b in segs if isinstance(b, str)][0]} on a parsed document", actual=str(segs))
+        pr.append(("serialise-raises", f"as_bytes raised {[b for b in segs if isinstance(b, str)][0]} on a parsed document", None, str(segs), None))
     elif b"".join(segs) != x:
-        ctx.fail("reserialise", inp, "as_bytes of the parsed documents differs from the buffer they were parsed from",
-                 expected=x.hex(), actual=b"".join(segs).hex())
+        pr.append(("reserialise", "as_bytes of the parsed documents differs from the buffer they were parsed from", x.hex(), b"".join(segs).hex(), None))
     if walk_lengths(x) != len(ds):
-        ctx.fail("consumed", inp, "the parser did not consume exactly the announced document lengths", expected=walk_lengths(x), actual=len(ds))
+        pr.append(("consumed", "the parser did not consume exactly the announced document lengths", walk_lengths(x), len(ds), None))
     if exp is not None:
         for i, (d, e) in enumerate(zip(ds, exp)):
             got = [(p.token_id, val_str(p), [attr_str(a) for a in p.attributes if not isinstance(a, int)]) for p in d.parts]
-            want = [(t, v, a) for (t, v, a) in e["parts"]]
+            want = [(t, v, list(a)) for (t, v, a) in e["parts"]]
             if d.id.value[0] != e["id"] or got != want:
-                ctx.fail("token-values", dict(inp, document=i), "token ids / values of the parsed document differ from what was written",
-                         expected=str(want), actual=str(got))
+                pr.append(("token-values", "token ids / values of the parsed document differ from what was written", str(want), str(got), i))
             if bytes(d.constants_table) != e["cdt"]:
-                ctx.fail("constant-table", dict(inp, document=i), f"constant table of the parsed document ({e['mode']}) is wrong",
-                         expected=e["cdt"].hex(), actual=bytes(d.constants_table).hex())
+                pr.append(("constant-table", f"constant table of the parsed document ({e['mode']}) is wrong", e["cdt"].hex(), bytes(d.constants_table).hex(), i))
             if not isinstance(segs[i], str) and segs[i] != e["segment"]:
-                ctx.fail("reserialise", dict(inp, document=i), "as_bytes of one parsed document differs from its own octets",
-                         expected=e["segment"].hex(), actual=segs[i].hex())
+                pr.append(("reserialise", "as_bytes of one parsed document differs from its own octets", e["segment"].hex(), segs[i].hex(), i))
+    return line, ds, pr
+
+
+# parsed documents kept alive while the run goes on: [document, canonical text at parse time, buffer, index in it, number of the parse]
+HELD = []
+PARSED = []  # every canonical buffer parsed so far, in order (for the search of the call that changed a held document)
+HELD_MAX = 6000
+
+
+def hold(ctx, x, ds, line):
+    snaps = line.split(" | ")
+    if len(snaps) != len(ds):
+        return
+    for i, d in enumerate(ds):
+        item = [d, snaps[i], x, i, len(PARSED) - 1]
+        if len(HELD) < HELD_MAX:
+            HELD.append(item)
+        else:
+            HELD[ctx.rng.randrange(HELD_MAX)] = item
+
+
+def check_canonical(ctx, mb, x: bytes, exp, origin, keep=True):
+    """the property on one canonical buffer; returns the correspondence pair"""
+    line, ds, pr = canonical_problems(mb, x, exp)
+    inp = {"op": "parse", "buffer": x.hex(), "origin": origin}
+    for kind, what, expected, actual, i in pr:
+        ctx.fail(kind, inp if i is None else dict(inp, document=i), what, expected=expected, actual=actual)
+        if kind == "parse-hangs":
+            note_hang(ctx)
+    PARSED.append(x)
+    if keep and ds is not None and not pr:
+        hold(ctx, x, ds, line)
     return (f"lrrp.parse {hx(x)}", line)
+
+
+def verify_held(ctx, mb, every=1):
+    """every document parsed earlier and still referenced must be what it was when it was parsed"""
+    bad = 0
+    for n, (d, snap, x, i, at) in enumerate(HELD):
+        if n % every:
+            continue
+        ctx.count("held:document-reverified")
+        now = doc_str(mb, d)
+        if now == snap:
+            continue
+        bad += 1
+        if bad > 3:
+            continue
+        # which later parse changed it?  replay the pair (first, later) for each later buffer
+        then = None
+        for y in PARSED[at + 1 : at + 1 + 400]:
+            ds0 = timed(mb.MBXML.from_bytes, x)
+            if isinstance(ds0, str) or len(ds0) <= i:
+                break
+            s0 = doc_str(mb, ds0[i])
+            timed(mb.MBXML.from_bytes, y)
+            if doc_str(mb, ds0[i]) != s0:
+                then = [y.hex()]
+                break
+        if then is None:
+            then = [y.hex() for y in PARSED[at + 1 :][-40:]]
+        ctx.fail("held-document-changed", {"op": "hold", "first": x.hex(), "document": i, "then": then},
+                 "a document returned by from_bytes changed while later buffers were parsed", expected=snap, actual=now)
+    return bad
+
+
+# ------------------------------------------------------------- defaults spelled out
+def default_table_sweep(ctx):
+    """every table-carrying document id x every default-like inline table x its surroundings in the buffer"""
+    out = []
+    for did in TABLE_IDS:
+        others = [d for d in TABLE_IDS if d != did]
+        for label in SPECIAL_TABLES:
+            if label.startswith(("same-as", "previous")):
+                continue
+            out.append(gen_buffer(ctx, ndocs=1, ntok=0, dids=[did], cdt_modes=[label]) + (f"inline:{label}",))
+            out.append(gen_buffer(ctx, ndocs=1, ntok=ctx.rng.randrange(1, 5), dids=[did], cdt_modes=[label]) + (f"inline:{label}+tokens",))
+            out.append(gen_buffer(ctx, ndocs=3, ntok=ctx.rng.randrange(0, 3), dids=[did, pick(ctx, others), pick(ctx, TABLE_IDS)],
+                                  cdt_modes=[label, "inherited", "inherited"]) + (f"inline:{label},inherited,inherited",))
+            out.append(gen_buffer(ctx, ndocs=2, ntok=ctx.rng.randrange(0, 3), dids=[pick(ctx, NCDT_IDS), did],
+                                  cdt_modes=[None, label]) + (f"ncdt,inline:{label}",))
+        # the table that CDT_LEN(1) would inherit, spelled out instead: after an NCDT document (= the default table),
+        # after an inline table, after an inherited one, after nothing
+        for prev_mode in (None, "default", "inline", "default-1oct", "inherited"):
+            for label in ("same-as-previous", "previous-1oct", "previous-ext"):
+                first = pick(ctx, NCDT_IDS) if prev_mode is None else pick(ctx, TABLE_IDS)
+                out.append(gen_buffer(ctx, ndocs=3, ntok=ctx.rng.randrange(0, 3), dids=[first, did, pick(ctx, others)],
+                                      cdt_modes=[prev_mode, label, pick(ctx, ("inherited", "same-as-previous"))]) + (f"{prev_mode},inline:{label}",))
+    return out
+
+
+def synonym_sweep(ctx):
+    """tokens written in a form that has a shorter synonym or an implied value: a length-prefixed value of the fixed
+    length of its sibling token, a zero result code / empty data (the length-0 result tokens), a float with a zero
+    fraction (the uintvar sibling), zero / empty / all-zero values"""
+    out = []
+    z4 = bytes(4)
+    for did in LRRP_DOCS:
+        d = REF["docs"][str(did)]
+        cases = []
+        for tok in REF["tables"][d["table"]]:
+            tid, _name, ty, length, attrs = tok
+            if ty not in IMPLEMENTED:
+                continue
+            if ty == "OPAQUE_I" and length is None:
+                codes = [[0] * len(attrs), [5] * len(attrs), [127] * len(attrs)]
+                for c in codes[: 3 if attrs else 1]:
+                    for data in (b"", b"\x00", rbytes(ctx, 1), rbytes(ctx, 5), bytes(4)):
+                        cases.append((tok, (c, data)))
+            elif ty == "OPAQUE_I":
+                cases.append((tok, ([], bytes(length))))
+            elif ty == "INFO_TIME":
+                cases.append((tok, bytes(5)))
+            elif ty in ("UINT8", "UINTVAR"):
+                cases.append((tok, 0))
+            elif ty == "UFLOATVAR":
+                cases += [(tok, (i, 0)) for i in (0, 1, 127, 128, U_MAX)]
+            elif ty == "SFLOATVAR":
+                cases += [(tok, (False, 0, 0)), (tok, (False, 64, 0)), (tok, (True, 1, 0)), (tok, (True, S_MAX, 0))]
+            elif ty == "CIRCLE_2D":
+                cases += [(tok, (z4, z4, (0, 0))), (tok, (rbytes(ctx, 4), rbytes(ctx, 4), (128, 0)))]
+            elif ty == "POINT_2D":
+                cases.append((tok, (z4, z4)))
+            elif ty == "POINT_3D":
+                cases += [(tok, (z4, z4, (False, 0, 0))), (tok, (rbytes(ctx, 4), rbytes(ctx, 4), (True, 64, 0)))]
+        for tok, v in cases:
+            o, e = enc_token(tok, v)
+            # alone, and followed by another token (a dropped octet must not hide behind the end of the document)
+            for tail in (b"", None):
+                body = (b"" if d["ncdt"] else b"\x00") + o
+                parts = [e]
+                if tail is None:
+                    toks = [t for t in REF["tables"][d["table"]] if t[2] in IMPLEMENTED]
+                    o2, e2 = gen_token(ctx, pick(ctx, toks))
+                    body += o2
+                    parts.append(e2)
+                x = enc_u(did) + enc_u(len(body)) + body
+                out.append((x, [{"id": did, "cdt": DEFAULT_CDT if d["ncdt"] else b"", "segment": x, "parts": parts, "mode": "x"}], "synonym"))
+    return out
 
 
 # ------------------------------------------------------------- corpus
@@ -381,6 +643,12 @@ HISTORIC = [
     _doc(13, bytes([0x70]) + enc_s(8192, True) + bytes([127])).hex(),
     _doc(7, bytes([0x39]) + enc_u(128) + enc_u(128) + bytes(128)).hex(),  # result code 128, 128 octets of data
     "0403005362", "0500", "0700",
+    # the built default table spelled out inline (a table-carrying id), alone / with a token / inherited by the next document
+    _doc(4, enc_u(len(DEFAULT_CDT)) + DEFAULT_CDT).hex(),
+    _doc(6, enc_u(len(DEFAULT_CDT)) + DEFAULT_CDT + bytes([0x22, 0x01, 0x07])).hex(),
+    (_doc(8, enc_u(len(DEFAULT_CDT)) + DEFAULT_CDT + bytes([0x34, 0x31, 0x3C])) + _doc(12, bytes([0x01, 0x22, 0x00])) + _doc(13, bytes([0x22, 0x00]))).hex(),
+    (_doc(5, bytes([0x22, 0x00])) + _doc(4, enc_u(len(DEFAULT_CDT)) + DEFAULT_CDT + bytes([0x53]))).hex(),  # after an NCDT document: equal to what 01 would inherit
+    (_doc(4, bytes([0x05]) + b"APCO\x00"[:5]) + _doc(6, bytes([0x05]) + b"APCO\x00"[:5] + bytes([0x38]))).hex(),  # the previous table again, inline
 ]
 
 
@@ -439,9 +707,17 @@ def api_attrs(ctx, tok, mode):
                 continue  # omitted wire attribute (known finding api-wire-attribute-omitted)
             key = adef[1] if ctx.rng.randrange(2) else a
             d[key] = gen_uint(ctx)
+            if mode == "any" and ctx.rng.randrange(12) == 0:
+                d[key] = None  # spelled out as None: the same as omitted (same known finding)
+                ctx.count("api-attr:wire-attribute-given-as-None")
         elif preset is not None:
             if ctx.rng.randrange(2):
                 d[a if ctx.rng.randrange(2) else adef[1]] = preset
+                ctx.count("api-attr:preset-value-spelled-out")
+                if mode == "any" and ctx.rng.randrange(6) == 0:
+                    # next to the preset value / None: the lookup finds no such attribute (correspondence only)
+                    d[list(d)[-1]] = pick(ctx, (preset + 1, abs(preset - 1), 0, None))
+                    ctx.count("api-attr:near-preset-value")
         elif length == 0:
             if mode == "any" and ctx.rng.randrange(3) == 0:
                 d[adef[1] if ctx.rng.randrange(2) else a] = gen_uint(ctx)  # known finding api-length0-explicit-attribute
@@ -454,41 +730,75 @@ def attrs_spec(d):
     return "+".join(f"{('#' + str(k)) if isinstance(k, int) else k}={'N' if v is None else v}" for k, v in d.items())
 
 
-def diagnose(parts):
-    """the two recorded shortcomings of the lookup API, read off the assembled parts"""
+def diagnose(parts, calls, is_req):
+    """the two recorded shortcomings of the lookup API.  They are about what the CALLER did, judged by the reference
+    tables (a value given to an attribute of a fixed-length-0 token; a wire attribute not given, or given as None),
+    and show on the assembled parts; a part that has the shape although the caller supplied the attribute properly
+    (say, an explicit result code 0 that was dropped) is not excused."""
+    ref = ref_table(is_req)
     len0, omitted = [], []
-    for p in parts:
-        if p.token_type.name == "OPAQUE_I" and p.length == 0 and any(not isinstance(a, int) for a in p.attributes):
+    for p, (_key, _value, ad) in zip(parts, calls):
+        tok = ref.get(p.token_id)
+        if tok is None or tok[2] != "OPAQUE_I" or p.token_type.name != "OPAQUE_I":
+            continue
+        given = {k for k, v in ad.items() if v is not None}
+        if tok[3] == 0 and p.length == 0 and given and any(not isinstance(a, int) for a in p.attributes):
             len0.append(p.token_id)
-        if p.token_type.name == "OPAQUE_I" and p.length is None and any(isinstance(a, int) for a in p.attributes):
-            omitted.append(p.token_id)
+        if tok[3] is None and p.length is None and tok[4] and any(isinstance(a, int) for a in p.attributes):
+            if not all(any(k == a or k == ATTR_BY_ID[a][1] for k in given) for a in tok[4]):
+                omitted.append(p.token_id)
     return len0, omitted
 
 
-def api_case(ctx, mb, LRRP, mode):
-    is_req = bool(ctx.rng.randrange(2))
-    kinds = {True: "t0", False: "t1"}
-    docs = [d for d in LRRP_DOCS if REF["docs"][str(d)]["table"] == kinds[is_req]]
-    did = pick(ctx, docs)
-    ncdt = REF["docs"][str(did)]["ncdt"]
-    table = {t[0]: t for t in REF["tables"][kinds[is_req]] if t[2] in IMPLEMENTED}
-    known = [t for s in REF["known"]["request" if is_req else "answer"] for t in s if t[0] in table]
-    specs, calls = [], []
-    for _ in range(ctx.rng.randrange(0, 9)):
-        tid, name = pick(ctx, known)
-        tok = table[tid]
-        # a name is only used when the lookup is bound to find this very definition first
-        by_name = ctx.rng.randrange(3) == 0 and [t for t in known if t[1] == name][0][0] == tid
-        value, vtxt = api_value(ctx, tok[2], tok[3])
-        ad = api_attrs(ctx, tok, mode)
-        calls.append((name if by_name else tid, value, ad, tid))
-        specs.append(f"{name if by_name else '#' + str(tid)}~{vtxt}~{attrs_spec(ad)}")
-    cdt = None if ncdt else rbytes(ctx, pick(ctx, (0, 2, 5, 128)))
-    line = f"lrrp.api {did} {1 if is_req else 0} {'-' if cdt is None else 'T' + cdt.hex()} {';'.join(specs) if specs else '-'}"
+def pyval(s):
+    """python value of a value text of the line protocol (N, B<hex>, I<n>, F<dy>, C/P/Q<lat>/<lon>[/<dy>])"""
+    t, b = s[0], s[1:]
+
+    def dyv(q):
+        sg, n, e = q.split(":")
+        return (-1.0 if sg == "1" else 1.0) * int(n) / 2 ** int(e)
+
+    if t == "N":
+        return None
+    if t == "B":
+        return bytes.fromhex(b)
+    if t == "I":
+        return int(b)
+    if t == "F":
+        return dyv(b)
+    ps = b.split("/")
+    if t == "P":
+        return (bytes.fromhex(ps[0]), bytes.fromhex(ps[1]))
+    return (bytes.fromhex(ps[0]), bytes.fromhex(ps[1]), dyv(ps[2]))
+
+
+def parse_spec(sp):
+    """'<name|#id>~<value text>~<attrs>' -> (key, python value, attribute dict)"""
+    k, v, a = sp.split("~")
+    key = int(k[1:]) if k.startswith("#") else k
+    ad = {} if a == "-" else {(int(q.split("=")[0][1:]) if q.startswith("#") else q.split("=")[0]): (None if q.split("=")[1] == "N" else int(q.split("=")[1]))
+                              for q in a.split("+")}
+    return key, pyval(v), ad
+
+
+def parse_api_line(line):
+    _, did, req, cdt, specs = line.split(" ")
+    calls = [parse_spec(sp) for sp in ([] if specs == "-" else specs.split(";"))]
+    return int(did), req == "1", (None if cdt == "-" else bytes.fromhex(cdt[1:])), calls
+
+
+def sig(parts):
+    return [(p.token_id, val_str(p), sorted(attr_str(a) for a in p.attributes if not isinstance(a, int))) for p in parts]
+
+
+def api_eval(mb, LRRP, line):
+    """assemble the document of an `lrrp.api` line through get_token, serialise, parse back:
+    (canonical text | 'ERR …', document | None, [(kind, what, expected, actual, extra input)], diagnosis)"""
+    did, is_req, cdt, calls = parse_api_line(line)
 
     def build():
         doc = LRRP(document_id=[m for m in mb.MBXMLDocumentIdentifier if m.value[0] == did][0])
-        for key, value, ad, _ in calls:
+        for key, value, ad in calls:
             doc.parts.append(doc.get_token(name=key, value=value, attributes=dict(ad), is_request=is_req))
         if cdt is not None:
             doc.constants_table = cdt
@@ -496,40 +806,88 @@ def api_case(ctx, mb, LRRP, mode):
         return doc
 
     doc = timed(build)
-    inp = {"op": "api", "line": line}
     if isinstance(doc, str):
-        return line, doc, None
+        return doc, None, [], {}
     out = doc_str(mb, doc)
     b = timed(mb.MBXML.as_bytes, doc)
-    len0, omitted = diagnose(doc.parts)
-    inp["length0_token_with_explicit_attribute"] = len0
-    inp["wire_attribute_omitted"] = omitted
+    len0, omitted = diagnose(doc.parts, calls, is_req)
+    diag = {"length0_token_with_explicit_attribute": len0, "wire_attribute_omitted": omitted}
+    pr = []
     if isinstance(b, str):
-        ctx.fail("api-serialise-raises", inp, f"as_bytes raised {b} on a document assembled through get_token", actual=b)
-        return line, out, doc
+        pr.append(("api-serialise-raises", f"as_bytes raised {b} on a document assembled through get_token", None, b, {}))
+        return out, doc, pr, diag
     back = timed(mb.MBXML.from_bytes, b)
-    want = [(p.token_id, val_str(p), sorted(attr_str(a) for a in p.attributes if not isinstance(a, int))) for p in doc.parts]
+    want = sig(doc.parts)
     if isinstance(back, str) or len(back) != 1:
         got = back if isinstance(back, str) else f"{len(back)} documents"
     else:
-        got = [(p.token_id, val_str(p), sorted(attr_str(a) for a in p.attributes if not isinstance(a, int))) for p in back[0].parts]
+        got = sig(back[0].parts)
     if got != want:
-        ctx.fail("api-roundtrip", dict(inp, octets=b.hex()), "a document assembled through get_token does not parse back into the same token ids and values",
-                 expected=str(want), actual=str(got))
-    ctx.count("api:known-finding-shape" if (len0 or omitted) else "api:well-formed")
+        pr.append(("api-roundtrip", "a document assembled through get_token does not parse back into the same token ids and values",
+                   str(want), str(got), {"octets": b.hex()}))
+    elif cdt is not None and bytes(back[0].constants_table) != cdt:
+        pr.append(("api-constant-table", "the constant table set on a document assembled through get_token does not parse back",
+                   cdt.hex(), bytes(back[0].constants_table).hex(), {"octets": b.hex()}))
     if len0 or omitted:
         # the recorded shortcomings excuse only the tokens they are about: the rest of the document must still round-trip
         rest = [p for p in doc.parts if p.token_id not in len0 and p.token_id not in omitted]
         doc.parts = rest
         b2 = timed(mb.MBXML.as_bytes, doc)
         back2 = b2 if isinstance(b2, str) else timed(mb.MBXML.from_bytes, b2)
-        want2 = [(p.token_id, val_str(p), sorted(attr_str(a) for a in p.attributes if not isinstance(a, int))) for p in rest]
-        got2 = back2 if isinstance(back2, str) else (f"{len(back2)} documents" if len(back2) != 1 else [
-            (p.token_id, val_str(p), sorted(attr_str(a) for a in p.attributes if not isinstance(a, int))) for p in back2[0].parts])
+        want2 = sig(rest)
+        got2 = back2 if isinstance(back2, str) else (f"{len(back2)} documents" if len(back2) != 1 else sig(back2[0].parts))
         if got2 != want2:
-            ctx.fail("api-roundtrip", {"op": "api", "line": line, "without_tokens": len0 + omitted},
-                     "the rest of a document assembled through get_token (known-finding tokens removed) does not parse back",
-                     expected=str(want2), actual=str(got2))
+            pr.append(("api-roundtrip-rest", "the rest of a document assembled through get_token (known-finding tokens removed) does not parse back",
+                       str(want2), str(got2), {"without_tokens": len0 + omitted}))
+    return out, doc, pr, diag
+
+
+API_TABLES = ("random", "random", "random", "default", "default-1oct", "default-trunc", "default-ext", "default-prefix", "empty")
+
+
+def gen_api_line(ctx, mode, is_req=None, force=()):
+    """an `lrrp.api` line: document id, kind, constant table, 0-8 get_token calls (force: token ids looked up by number first)"""
+    if is_req is None:
+        is_req = bool(ctx.rng.randrange(2))
+    kinds = {True: "t0", False: "t1"}
+    docs = [d for d in LRRP_DOCS if REF["docs"][str(d)]["table"] == kinds[is_req]]
+    did = pick(ctx, docs)
+    ncdt = REF["docs"][str(did)]["ncdt"]
+    table = {t[0]: t for t in REF["tables"][kinds[is_req]] if t[2] in IMPLEMENTED}
+    known = [t for s in REF["known"]["request" if is_req else "answer"] for t in s if t[0] in table]
+    specs = []
+    todo = [(tid, table[tid][1], False) for tid in force if tid in table]
+    for _ in range(ctx.rng.randrange(0, 9)):
+        tid, name = pick(ctx, known)
+        # a name is only used when the lookup is bound to find this very definition first
+        by_name = ctx.rng.randrange(3) == 0 and [t for t in known if t[1] == name][0][0] == tid
+        todo.append((tid, name, by_name))
+    if force:
+        ctx.rng.shuffle(todo)
+    for tid, name, by_name in todo:
+        tok = table[tid]
+        _value, vtxt = api_value(ctx, tok[2], tok[3])
+        ad = api_attrs(ctx, tok, mode)
+        specs.append(f"{name if by_name else '#' + str(tid)}~{vtxt}~{attrs_spec(ad)}")
+    if ncdt:
+        cdt = None
+    else:
+        how = pick(ctx, API_TABLES)
+        ctx.count(f"api-cdt:{how}")
+        cdt = rbytes(ctx, pick(ctx, (0, 2, 5, 128))) if how == "random" else b"" if how == "empty" else special_table(ctx, how, None)
+    return f"lrrp.api {did} {1 if is_req else 0} {'-' if cdt is None else 'T' + cdt.hex()} {';'.join(specs) if specs else '-'}"
+
+
+def api_case(ctx, mb, LRRP, mode):
+    line = gen_api_line(ctx, mode)
+    out, doc, pr, diag = api_eval(mb, LRRP, line)
+    for kind, what, expected, actual, extra in pr:
+        if kind == "api-roundtrip-rest":
+            ctx.fail("api-roundtrip", dict({"op": "api", "line": line}, **extra), what, expected=expected, actual=actual)
+        else:
+            ctx.fail(kind, dict({"op": "api", "line": line}, **diag, **extra), what, expected=expected, actual=actual)
+    if doc is not None and not any(k == "api-serialise-raises" for k, *_ in pr):
+        ctx.count("api:known-finding-shape" if (diag["length0_token_with_explicit_attribute"] or diag["wire_attribute_omitted"]) else "api:well-formed")
     return line, out, doc
 
 
@@ -543,6 +901,246 @@ def m_omitted(f):
 
 
 MATCHERS = {"api_length0_explicit_attribute": m_len0, "api_wire_attribute_omitted": m_omitted}
+
+
+# ------------------------------------------------------------- sessions: one process, many calls
+def ref_table(is_req):
+    return {t[0]: t for t in REF["tables"]["t0" if is_req else "t1"]}
+
+
+# token ids that the request and the answer / report tables both define (the three common ones included)
+SHARED_IDS = sorted(set(ref_table(True)) & set(ref_table(False)))
+NAMES = {True: sorted({t[1] for t in REF["tables"]["t0"]}), False: sorted({t[1] for t in REF["tables"]["t1"]})}
+
+
+def token_step(ctx, key_tid, is_req, by_name=False, name=None):
+    """a get_token step for token id `key_tid` (by number) or `name`, with a value of the shape the requested kind expects"""
+    if by_name:
+        defs = [t for t in REF["tables"]["t0" if is_req else "t1"] if t[1] == name]
+        tok = defs[0] if defs else pick(ctx, REF["tables"]["t1" if is_req else "t0"])  # a name of the other kind: value of any shape
+        key = name
+    else:
+        tok = ref_table(is_req)[key_tid]
+        key = "#" + str(key_tid)
+    vtxt = api_value(ctx, tok[2], tok[3])[1] if tok[2] in IMPLEMENTED else "N"
+    ad = api_attrs(ctx, tok, "good") if tok[2] in IMPLEMENTED else {}
+    return {"s": "T", "req": 1 if is_req else 0, "spec": f"{key}~{vtxt}~{attrs_spec(ad)}"}
+
+
+def exp_json(exp):
+    return [{"id": e["id"], "cdt": e["cdt"].hex(), "segment": e["segment"].hex(), "mode": e["mode"],
+             "parts": [[t, v, list(a)] for (t, v, a) in e["parts"]]} for e in exp]
+
+
+def exp_unjson(j):
+    return [{"id": e["id"], "cdt": bytes.fromhex(e["cdt"]), "segment": bytes.fromhex(e["segment"]), "mode": e["mode"],
+             "parts": [(t, v, list(a)) for t, v, a in e["parts"]]} for e in j]
+
+
+def parse_step(ctx, kinds=None, **kw):
+    x, exp = gen_buffer(ctx, kinds=kinds, **kw)
+    return {"s": "P", "x": x.hex(), "exp": exp_json(exp)}
+
+
+DOC_MUTATIONS = ("parts-clear", "parts-reverse", "parts-dup", "parts-pop", "value-rebind", "id-rebind", "attrs-rebind", "type-rebind", "cdt-rebind", "flags-flip")
+TOK_MUTATIONS = ("attrs-append", "attrs-clear", "attrs-reverse", "value-rebind", "id-rebind")
+
+
+def gen_session(ctx):
+    """parse a request, look tokens up for a report by number, assemble a report, parse a report, look tokens up for
+    a request … in ONE process; verify what was returned earlier; mutate a returned object and call again"""
+    steps = []
+    k = bool(ctx.rng.randrange(2))  # kind of the document parsed next (True = request)
+    for _ in range(ctx.rng.randrange(2, 5)):
+        r = ctx.rng.randrange(10)
+        kinds = None if r == 0 else ("t2",) if r == 1 else ("t0",) if k else ("t1",)
+        steps.append(parse_step(ctx, kinds=kinds, ndocs=pick(ctx, (1, 1, 2)), ntok=ctx.rng.randrange(0, 6)))
+        ids = list(SHARED_IDS)
+        ctx.rng.shuffle(ids)
+        for tid in ids[: ctx.rng.randrange(1, 4)]:
+            steps.append(token_step(ctx, tid, (not k) if ctx.rng.randrange(4) else k))
+        for _ in range(ctx.rng.randrange(0, 3)):
+            flag = bool(ctx.rng.randrange(2))
+            steps.append(token_step(ctx, None, flag, by_name=True, name=pick(ctx, NAMES[flag if ctx.rng.randrange(3) else not flag])))
+        if ctx.rng.randrange(3):
+            kind = (not k) if ctx.rng.randrange(4) else k
+            shared = [t for t in SHARED_IDS if ref_table(kind)[t][2] in IMPLEMENTED]
+            ctx.rng.shuffle(shared)
+            steps.append({"s": "A", "line": gen_api_line(ctx, "good", is_req=kind, force=shared[: ctx.rng.randrange(1, 4)])})
+        if ctx.rng.randrange(4) == 0:
+            steps.append({"s": "V"})
+        if ctx.rng.randrange(4) == 0:
+            steps.append({"s": "MD", "r": ctx.rng.randrange(1 << 16), "how": pick(ctx, DOC_MUTATIONS)})
+        if ctx.rng.randrange(5) == 0:
+            steps.append({"s": "MT", "r": ctx.rng.randrange(1 << 16), "how": pick(ctx, TOK_MUTATIONS)})
+        if ctx.rng.randrange(5):
+            k = not k
+    steps.append({"s": "V"})
+    return steps
+
+
+def alternation_session(ctx, first_is_request, with_table):
+    """request, report, request, report (or the other way round): after every parse EVERY token id shared by both
+    tables is looked up by number for the opposite kind (and for the own one) and a one-token document is assembled"""
+    steps = []
+    k = first_is_request
+    for _ in range(4):
+        ids = [d for d in (TABLE_IDS if with_table else NCDT_IDS) if REF["docs"][str(d)]["table"] == ("t0" if k else "t1")]
+        steps.append(parse_step(ctx, dids=[pick(ctx, ids)], ndocs=1, ntok=ctx.rng.randrange(1, 4)))
+        for tid in SHARED_IDS:
+            for kind in (not k, k):
+                steps.append(token_step(ctx, tid, kind))
+                if ref_table(kind)[tid][2] in IMPLEMENTED:
+                    steps.append({"s": "A", "line": gen_api_line(ctx, "good", is_req=kind, force=(tid,))})
+        name_kind = bool(ctx.rng.randrange(2))
+        for nm in NAMES[name_kind][:: max(1, len(NAMES[name_kind]) // 4)]:
+            steps.append(token_step(ctx, None, not name_kind, by_name=True, name=nm))  # a name of the other kind must stay unknown
+            steps.append(token_step(ctx, None, name_kind, by_name=True, name=nm))
+        steps.append({"s": "V"})
+        k = not k
+    return steps
+
+
+class SessionState:
+    def __init__(self):
+        self.docs = []  # [document, text when returned, buffer, index]
+        self.toks = []  # [token, text when returned, is_request, spec]
+        self.lines = {}  # buffer -> canonical line of its first parse
+
+
+def mutate_doc(d, how):
+    ps = d.parts
+    if how == "parts-clear":
+        ps.clear()
+    elif how == "parts-reverse":
+        ps.reverse()
+    elif how == "parts-dup":
+        if ps:
+            ps.append(ps[0])
+    elif how == "parts-pop":
+        if ps:
+            ps.pop()
+    elif how == "value-rebind":
+        for p in ps:
+            p.value = b"\xee" if not isinstance(p.value, bytes) else 7
+    elif how == "id-rebind":
+        for p in ps:
+            p.token_id = 0x7F
+    elif how == "attrs-rebind":
+        for p in ps:
+            p.attributes = [0x22]
+    elif how == "type-rebind":
+        for p in ps:
+            p.token_type = [m for m in type(p.token_type) if m.name == "NO_VALUE"][0]
+            p.length = 3
+    elif how == "cdt-rebind":
+        d.constants_table = b"\x00" + bytes(d.constants_table)
+    elif how == "flags-flip":
+        d.is_constant_table_default = not d.is_constant_table_default
+        d.is_constant_table_inherited = not d.is_constant_table_inherited
+    else:
+        raise AssertionError(how)
+
+
+def mutate_tok(t, how):
+    if how == "attrs-append":
+        t.attributes.append(0x63)
+    elif how == "attrs-clear":
+        t.attributes.clear()
+    elif how == "attrs-reverse":
+        t.attributes.reverse()
+        t.attributes.insert(0, 0x22)
+    elif how == "value-rebind":
+        t.value = b"\xee" if not isinstance(t.value, bytes) else 7
+    elif how == "id-rebind":
+        t.token_id = 0x7F
+    else:
+        raise AssertionError(how)
+
+
+def tok_text(t):
+    try:
+        return part_str(t)
+    except BaseException as e:  # noqa
+        return impl_error(e)
+
+
+def session_step(mb, LRRP, st, step):
+    """run one step on the real code: ([(kind, what, expected, actual)], [(line, implementation output)])"""
+    pr, pairs = [], []
+    s = step["s"]
+    if s == "P":
+        x = bytes.fromhex(step["x"])
+        line, ds, cp = canonical_problems(mb, x, exp_unjson(step["exp"]) if step.get("exp") is not None else None)
+        pr += [(kind, what + ("" if i is None else f" (document {i})"), e, a) for kind, what, e, a, i in cp]
+        pairs.append((f"lrrp.parse {hx(x)}", line))
+        if ds is not None:
+            if x in st.lines and st.lines[x] != line:
+                pr.append(("parse-depends-on-history", "the same buffer parsed differently earlier in this process", st.lines[x], line))
+            st.lines.setdefault(x, line)
+            snaps = line.split(" | ")
+            if len(snaps) == len(ds):
+                for i, d in enumerate(ds):
+                    st.docs.append([d, snaps[i], x, i])
+    elif s == "T":
+        key, value, ad = parse_spec(step["spec"])
+        r = timed(LRRP.get_token, key, value, ad, bool(step["req"]))
+        txt = r if isinstance(r, str) else part_str(r)
+        pairs.append((f"lrrp.token {step['req']} {step['spec']}", txt))
+        if not isinstance(r, str):
+            st.toks.append([r, txt, step["req"], step["spec"]])
+    elif s == "A":
+        out, _doc, ap, _diag = api_eval(mb, LRRP, step["line"])
+        pr += [(kind, what, e, a) for kind, what, e, a, _x in ap]
+        pairs.append((step["line"], out))
+    elif s == "V":
+        for d, snap, x, i in st.docs:
+            now = doc_str(mb, d)
+            if now != snap:
+                pr.append(("held-document-changed", f"document {i} returned by from_bytes({x.hex()}) changed during later calls", snap, now))
+        for t, snap, req, spec in st.toks:
+            now = tok_text(t)
+            if now != snap:
+                pr.append(("held-token-changed", f"the token returned by get_token({spec}, is_request={req}) changed during later calls", snap, now))
+    elif s == "MD":
+        if st.docs:
+            d, snap, x, i = st.docs.pop(step["r"] % len(st.docs))
+            mutate_doc(d, step["how"])
+            line, ds = parse_str(mb, x)
+            if line != st.lines.get(x):
+                pr.append(("reparse-after-mutation", f"after {step['how']} on document {i} parsed from {x.hex()} the same buffer parses differently",
+                           st.lines.get(x), line))
+    elif s == "MT":
+        if st.toks:
+            t, snap, req, spec = st.toks.pop(step["r"] % len(st.toks))
+            mutate_tok(t, step["how"])
+            key, value, ad = parse_spec(spec)
+            r = timed(LRRP.get_token, key, value, ad, bool(req))
+            now = r if isinstance(r, str) else tok_text(r)
+            if now != snap:
+                pr.append(("lookup-after-mutation", f"after {step['how']} on the token returned by get_token({spec}, is_request={req}) the same lookup returns something else",
+                           snap, now))
+    else:
+        raise AssertionError(s)
+    return pr, pairs
+
+
+def run_session(ctx, mb, LRRP, steps, origin):
+    st = SessionState()
+    pairs = []
+    reported = 0
+    for n, step in enumerate(steps):
+        pr, pp = session_step(mb, LRRP, st, step)
+        pairs += pp
+        ctx.count(f"session-step:{step['s']}")
+        for kind, what, expected, actual in pr:
+            if "hangs" in kind:
+                note_hang(ctx)
+            if reported < 2:  # one session, one story: the first failing steps are enough
+                reported += 1
+                ctx.fail(kind, {"op": "session", "origin": origin, "failed_step": n, "steps": steps[: n + 1]}, what, expected=expected, actual=actual)
+    ctx.case(("session", json.dumps(steps, sort_keys=True)))
+    return pairs
 
 
 # ------------------------------------------------------------- malformed stream
@@ -598,6 +1196,7 @@ def correspond(ctx, component, pairs):
 
 def run(ctx):
     HANGS[0] = 0
+    del HELD[:], PARSED[:]
     try:
         _run(ctx)
     except Abort:
@@ -609,14 +1208,26 @@ def _run(ctx):
     mb, LRRP = mods()
     mb.MBXML.DEBUG = False
     ctx.rule = (
-        "canonical buffers: 1-3 LRRP documents (all 18 LRRP document ids), 0-12 tokens drawn from the document's reference "
-        "table (implemented value forms only), values at septet boundaries (request ids of 0/1/127/128/129 octets, result "
+        "canonical buffers: 1-3 (sometimes 4-5) LRRP documents (all 18 LRRP document ids), 0-12 tokens drawn from the document's "
+        "reference table (implemented value forms only), values at septet boundaries (request ids of 0/1/127/128/129 octets, result "
         "codes and intervals 0,127,128,16383,16384,2^28,2^32-1, altitudes/speeds with zero integer part and negative "
-        "fraction, sign-septet boundaries), constant table default / inline (0,2..200 octets) / inherited; written by "
-        "the generator's own encoder.  Corpus first: every buffer of the LRRP/MBXML tests and the historically failing "
-        "buffers.  Token API: 0-8 get_token calls by name or id with typed boundary values and attribute dicts.  "
+        "fraction, sign-septet boundaries), constant table default / inherited / inline: random octets (0,2..200) or a table the "
+        "library could take for one it knows (the built default table of the document type, one octet / one bit / first / last octet "
+        "changed, one octet shorter / longer, beheaded, prefix of the constants, one constant missing, two constants swapped, twice, "
+        "lower case; the previous document's table spelled out instead of CDT_LEN(1), and its near misses); written by "
+        "the generator's own encoder.  Sweeps: every table-carrying id x every default-like table x (alone, with tokens, followed by two "
+        "inheriting documents, after an NCDT document); the would-be-inherited table after NCDT / inline / inherited documents; every "
+        "implemented token in a form that has a shorter synonym or an implied value (1-octet length-prefixed value, zero result code, "
+        "empty data, zero fraction, zero / all-zero values), alone and followed by another token.  Corpus first: every buffer of the "
+        "LRRP/MBXML tests and the historically failing buffers.  Token API: 0-8 get_token calls by name or id with typed boundary "
+        "values and attribute dicts (preset value spelled out, None, near-preset), constant table random / default / near-default.  "
+        "Sessions in one process: request and report documents parsed in alternation, after each parse get_token by number for the "
+        "ids both tables define (all ten of them in the alternation sessions, for the opposite and the own kind) and by name (names of "
+        "either kind with either flag), documents assembled from those tokens and parsed back, every returned document / token held "
+        "and re-verified, a returned document / token mutated (list operations, attribute rebinding) and the same call repeated.  "
+        "Every canonical document parsed in the run is held and re-verified during and at the end of the run.  "
         "Malformed: every truncation of corpus/generated buffers, byte mutations, random octets, each under a 2 s alarm.  "
-        "A case is non-trivial unless the buffer is empty; distinct = distinct buffers / API call sequences."
+        "A case is non-trivial unless the buffer is empty; distinct = distinct buffers / API call sequences / sessions."
     )
     ctx.trusted_base += [
         "Lean 4.33 kernel",
@@ -654,6 +1265,15 @@ def _run(ctx):
         ctx.case(("multi", x))
         ctx.count("corpus:concatenated")
         pairs.append(check_canonical(ctx, mb, x, None, "captured-concatenated"))
+    # ---- values the sender spells out although the library knows them as a default
+    for x, exp, origin in default_table_sweep(ctx):
+        ctx.case(("default-table", x))
+        ctx.count("generated:default-like-inline-table")
+        pairs.append(check_canonical(ctx, mb, x, exp, origin))
+    for x, exp, origin in synonym_sweep(ctx):
+        ctx.case(("synonym", x))
+        ctx.count("generated:explicit-form-with-shorter-synonym")
+        pairs.append(check_canonical(ctx, mb, x, exp, origin))
     # ---- grammar-based canonical buffers
     gen = []
     for n in range(ctx.budget(2000, 100000)):
@@ -661,6 +1281,8 @@ def _run(ctx):
         gen.append(x)
         ctx.case(("gen", x), sample={"op": "from_bytes/as_bytes", "buffer": x.hex(), "documents": len(exp)} if n < 2 else None)
         pairs.append(check_canonical(ctx, mb, x, exp, "generated"))
+        if n % 500 == 499:
+            verify_held(ctx, mb, every=7)
     # every token of every reference table at least once, alone in a document
     for did in LRRP_DOCS:
         d = REF["docs"][str(did)]
@@ -675,8 +1297,22 @@ def _run(ctx):
                 ctx.case(("single", x))
                 ctx.count("generated:single-token-documents")
                 pairs.append(check_canonical(ctx, mb, x, [{"id": did, "cdt": DEFAULT_CDT if d["ncdt"] else b"", "segment": x, "parts": [e], "mode": "x"}], "single-token"))
+    # ---- every document parsed so far is still what it was
+    verify_held(ctx, mb)
     if not ctx.search_only and ctx.driver_ok:
         correspond(ctx, "from_bytes+as_bytes(canonical)", pairs)
+    # ---- sessions
+    spairs = []
+    for first in (True, False):
+        for with_table in (False, True):
+            spairs += run_session(ctx, mb, LRRP, alternation_session(ctx, first, with_table), "alternation")
+            ctx.count("session:alternation-every-shared-id")
+    for n in range(ctx.budget(250, 8000)):
+        spairs += run_session(ctx, mb, LRRP, gen_session(ctx), "random")
+        ctx.count("session:random")
+    verify_held(ctx, mb)
+    if not ctx.search_only and ctx.driver_ok:
+        correspond(ctx, "session(from_bytes, get_token, as_bytes interleaved)", spairs)
     # ---- token lookup API
     apairs = []
     for n in range(ctx.budget(1500, 60000)):
@@ -721,6 +1357,8 @@ def _run(ctx):
         mpairs.append(check_malformed(ctx, mb, x, "random"))
     if not ctx.search_only and ctx.driver_ok:
         correspond(ctx, "from_bytes+as_bytes(malformed)", mpairs)
+    # the documents parsed at the beginning, after everything else the run did in this process
+    verify_held(ctx, mb)
     ctx.exhaustive = False
 
 
@@ -747,10 +1385,13 @@ def replay(obj):
             segs = [timed(mb.MBXML.as_bytes, d) for d in ds]
             ok = all(not isinstance(s, str) for s in segs) and b"".join(segs) == x and walk_lengths(x) == len(ds)
             print("re-serialised:", "".join(s if isinstance(s, str) else s.hex() for s in segs))
-            if f.get("kind") in ("token-values", "constant-table"):
+            if f.get("kind") == "token-values" and len(ds) > inp.get("document", 0):
                 print("expected:", f.get("expected"))
-                ok = ok and str(f.get("actual")) != str(
+                ok = ok and str(f.get("expected")) == str(
                     [(p.token_id, val_str(p), [attr_str(a) for a in p.attributes if not isinstance(a, int)]) for p in ds[inp.get("document", 0)].parts])
+            if f.get("kind") == "constant-table" and len(ds) > inp.get("document", 0):
+                print("expected constant table:", f.get("expected"))
+                ok = ok and f.get("expected") == bytes(ds[inp.get("document", 0)].constants_table).hex()
             still = 0 if ok and f.get("kind") not in ("parse-hangs",) else 1
             if f.get("kind") in ("consumed", "parse-hangs") and line != "HANG":
                 still = 0 if walk_lengths(x) == len(ds) else 1
@@ -760,49 +1401,39 @@ def replay(obj):
                 still = 1 if line == "HANG" else 0
     elif inp.get("op") == "api":
         lines.append(inp["line"])
-        _, did, req, cdt, specs = inp["line"].split(" ")
-
-        def pyval(s):
-            t, b = s[0], s[1:]
-            dyv = lambda q: (-1.0 if q.split(":")[0] == "1" else 1.0) * int(q.split(":")[1]) / 2 ** int(q.split(":")[2])
-            if t == "N":
-                return None
-            if t == "B":
-                return bytes.fromhex(b)
-            if t == "I":
-                return int(b)
-            if t == "F":
-                return dyv(b)
-            ps = b.split("/")
-            if t == "P":
-                return (bytes.fromhex(ps[0]), bytes.fromhex(ps[1]))
-            return (bytes.fromhex(ps[0]), bytes.fromhex(ps[1]), dyv(ps[2]))
-
-        def build():
-            doc = LRRP(document_id=[m for m in mb.MBXMLDocumentIdentifier if m.value[0] == int(did)][0])
-            for sp in ([] if specs == "-" else specs.split(";")):
-                k, v, a = sp.split("~")
-                key = int(k[1:]) if k.startswith("#") else k
-                ad = {} if a == "-" else {(int(p.split("=")[0][1:]) if p.startswith("#") else p.split("=")[0]): (None if p.split("=")[1] == "N" else int(p.split("=")[1])) for p in a.split("+")}
-                doc.parts.append(doc.get_token(name=key, value=pyval(v), attributes=ad, is_request=req == "1"))
-            if cdt != "-":
-                doc.constants_table = bytes.fromhex(cdt[1:])
-                doc.is_constant_table_default = False
-            return doc
-
-        doc = timed(build)
-        if isinstance(doc, str):
-            print("implementation get_token raised", doc)
+        out, doc, pr, diag = api_eval(mb, LRRP, inp["line"])
+        print("implementation assembled", out)
+        for kind, what, expected, actual, extra in pr:
+            print(f"  {kind}: {what}\n    expected {expected}\n    actual   {actual} {extra}")
+        if "without_tokens" in inp:
+            still = 1 if any(k == "api-roundtrip-rest" for k, *_ in pr) else 0
         else:
-            b = timed(mb.MBXML.as_bytes, doc)
-            print("implementation assembled", doc_str(mb, doc))
-            if not isinstance(b, str):
-                line, ds = parse_str(mb, b)
-                print("implementation parses its own octets as", line)
-                if ds is not None and len(ds) == 1:
-                    want = [(p.token_id, val_str(p)) for p in doc.parts]
-                    got = [(p.token_id, val_str(p)) for p in ds[0].parts]
-                    still = 0 if want == got else 1
+            still = 1 if any(k != "api-roundtrip-rest" for k, *_ in pr) else 0
+    elif inp.get("op") == "session":
+        st = SessionState()
+        still = 0
+        for n, step in enumerate(inp["steps"]):
+            pr, pp = session_step(mb, LRRP, st, step)
+            lines += [l for l, _ in pp]
+            for l, o in pp:
+                print(f"step {n} implementation {l[:160]} -> {o[:300]}")
+            for kind, what, expected, actual in pr:
+                still = 1
+                print(f"step {n} {step['s']}: {kind}: {what}\n    expected {expected}\n    actual   {actual}")
+    elif inp.get("op") == "hold":
+        x = bytes.fromhex(inp["first"])
+        line, ds = parse_str(mb, x)
+        still = 0
+        if ds is not None and len(ds) > inp.get("document", 0):
+            d = ds[inp.get("document", 0)]
+            snap = doc_str(mb, d)
+            for h in inp.get("then", []):
+                timed(mb.MBXML.from_bytes, bytes.fromhex(h))
+                now = doc_str(mb, d)
+                if now != snap:
+                    print(f"after from_bytes({h}) the document held from from_bytes({inp['first']}) reads\n    {now}\n  instead of\n    {snap}")
+                    still = 1
+                    break
     exe = os.path.join(BIN, "drv_c15")
     if lines and os.path.exists(exe):
         out = subprocess.run([exe], input="\n".join(lines) + "\n", capture_output=True, text=True).stdout.split("\n")
